@@ -469,7 +469,10 @@ class BuildersProp(core.Prop):
 # ---------------------------------------------------------------------------------------------
 def gen_desc(rng):
     u = rng.random()
-    if u < 0.12:
+    if u < 0.06:
+        # what the small scopes never reach: ten and more rows / columns, two-digit agent numbers per character
+        rows, cols = rng.randint(8, 13), rng.randint(10, 14)
+    elif u < 0.12:
         rows, cols = 1, rng.randint(1, 6)
     elif u < 0.24:
         rows, cols = rng.randint(1, 5), 1
